@@ -204,7 +204,9 @@ func NewHTTPBodyReader(readJSON, useUsernameNotEmail bool) *HTTPBodyReader {
 			"recover_end": {FormValuePassword, authboss.ConfirmPrefix + FormValuePassword},
 		},
 		Whitelist: map[string][]string{
-			"register": {FormValueEmail, FormValuePassword},
+			// never the password: these values are handed to
+			// ArbitraryUser.PutArbitrary to be stored as they are
+			"register": {FormValueEmail},
 		},
 	}
 }
